@@ -62,6 +62,16 @@ bool build_check(const std::string& prop, const std::string& tier, CheckSpec& s,
             s.batches.push_back(mk("pairs", q ? 120 : 4000, ALL, "single", {}, "pairing products over exact-size pair-record arrays and prepared points under ASan+UBSan"));
             s.batches.push_back(mk("group", q ? 60 : 3000, ALL, "single", {}, "group and target-group API under ASan+UBSan"));
             s.batches.push_back(mk("lq", q ? 60 : 3000, ALL, "single", {}, "LQ-IBE histories on every replica under ASan+UBSan"));
+            // hand-written assembly is invisible to the sanitizers: the assembly replicas again, with every caller object flush against an inaccessible page
+            static const std::vector<std::string> ASM3 = {"A/bmi2-adx", "A/baseline", "As/static-bmi2"};
+            s.batches.push_back(mk("prim", q ? 150 : 6000, ASM3, "single", {{"guard", 3}, {"ops", 200}}, "field-arithmetic primitives on operands that end (odd runs) / begin (even runs) exactly at the edge of mapped memory"));
+            s.batches.push_back(mk("group", q ? 45 : 2000, ASM3, "single", {{"guard", 3}}, "group and target-group API, caller objects at the edge of mapped memory"));
+            s.batches.push_back(mk("pairs", q ? 45 : 2000, ASM3, "single", {{"guard", 3}}, "pairing products, pair records and points at the edge of mapped memory"));
+            s.batches.push_back(mk("wkd", q ? 60 : 3000, ASM3, "single", {{"focus", 0}, {"guard", 3}, {"maxops", 14}}, "WKD-IBE histories, every scheme object at the edge of mapped memory"));
+            s.batches.push_back(mk("wkd", q ? 45 : 2000, ASM3, "single", {{"focus", 15}, {"guard", 3}, {"maxops", 12}}, "marshalling hops, destination objects at the edge of mapped memory"));
+            s.batches.push_back(mk("enc", q ? 45 : 2000, ASM3, "single", {{"guard", 3}}, "point decode of damaged bytes into objects at the edge of mapped memory"));
+            s.batches.push_back(mk("lq", q ? 30 : 1500, ASM3, "single", {{"guard", 3}}, "LQ-IBE histories, objects at the edge of mapped memory"));
+            s.batches.push_back(mk("sample", q ? 45 : 2000, ASM3, "single", {{"guard", 3}}, "samplers, hashing, target-group operations, objects at the edge of mapped memory"));
         }
         return true;
     }
